@@ -480,6 +480,9 @@ func main() {
 		for _, imp := range imps {
 			path := strings.Trim(imp.Path.Value, `"`)
 			name := filepath.Base(path)
+			if pn, ok := p.TypesInfo.Implicits[imp].(*types.PkgName); ok {
+				name = pn.Name()
+			}
 			if imp.Name != nil {
 				name = imp.Name.Name
 			}
